@@ -471,7 +471,7 @@ def check_cond_log(run, acc, mode, prog, case):
 def gen_cond_prog(prng, rt_safe, nrt_only):
     from vf.prog import Gen
     g = Gen(prng, rt_safe=rt_safe, nrt_only=nrt_only,
-            features=('cond', 'flow', 'tempo', 'condx'))
+            features=('cond', 'flow', 'tempo', 'condx', 'embed'))
     g.cond_heavy = True
     return g.program()
 
